@@ -97,8 +97,8 @@ class Program:
         """Body key of <T as trait>::method for the (ref-stripped) type ty_ix as seen from body `key`, if local."""
         cr = self.crate_of[key]
         t = cr.types[ty_ix]
-        while t["k"] == "ref":
-            t = cr.types[t["to"]]
+        while t["k"] == "ref" or (t["k"] == "adt" and t["path"] in ("std::boxed::Box", "std::rc::Rc") and t["args"]):
+            t = cr.types[t["to"]] if t["k"] == "ref" else cr.types[t["args"][0]]
         want = t["s"].replace(LIB_PREFIX, "")
         for c2, pre in ((self.lib, ""), (self.bin, "bin::")):
             for imp in c2.impls:
